@@ -96,7 +96,8 @@ def strategy(tier):
                          st.tuples(st.integers(3, 20000), st.sampled_from([1e-15, 1e-13, 3e-12, 1e-11, 1e-10, -1e-11, -1e-13])
                                    ).map(lambda t: (2 / t[0]) * (1 - t[1]))),
     })
-    cms = st.tuples(cms, st.sampled_from([0, 0, 0, 1, 2])).map(lambda t: dict(t[0], numtype=t[1]))
+    cms = st.tuples(cms, st.sampled_from([0, 0, 0, 1, 2]), st.one_of(st.none(), st.tuples(st.sampled_from(["w", "d"]), st.integers(0, 99)))
+                    ).map(lambda t: dict(t[0], numtype=t[1], extra_dim=list(t[2]) if t[2] else None))
     cuckoo = st.fixed_dictionaries({"t": st.just("cuckoo"), "b": st.integers(1, 8),
                                     "u": st.floats(0.0, 9.6), "pow2": st.booleans(),
                                     "cls": st.sampled_from(["cuckoo", "counting"])})
@@ -291,6 +292,19 @@ def _cms_case(case, ctx):
     ctx.check("C07.cms", 1 - 2.0 ** -d >= c * (1 - 1e-12), lambda: f"confidence={c!r}: depth {d}, 1-2^-d={1-2.0**-d!r}")
     s2 = CountMinSketch(confidence=c0, error_rate=e0)
     ctx.check("C07.cms", (s2.width, s2.depth) == (w, d), "second construction differs")
+    xd = case.get("extra_dim")
+    if xd:
+        # the accuracy request together with ONE of width / depth (a leftover keyword argument): whatever the constructor does
+        # with the lone dimension, a sketch it hands back for (confidence, error_rate) has to honour them
+        kw = {"width": 1 + xd[1] % 50} if xd[0] == "w" else {"depth": 1 + xd[1] % 3}
+        try:
+            s3 = CountMinSketch(confidence=c0, error_rate=e0, **kw)
+        except Exception:  # noqa  refused: fine
+            ctx.feat("cms_accuracy_plus_lone_dimension_refused")
+        else:
+            ctx.check("C07.cms", 2 / s3.width <= e * (1 + 1e-12) and 1 - 2.0 ** -s3.depth >= c * (1 - 1e-12),
+                      lambda: f"confidence={c!r} error_rate={e!r} with {kw}: got width {s3.width}, depth {s3.depth}")
+            ctx.feat("cms_accuracy_plus_lone_dimension")
     if w * d <= 1 << 16:
         g = CountMinSketch.frombytes(bytes(s))
         ctx.check("C07.cms", (g.width, g.depth) == (w, d), f"reloaded geometry {(g.width, g.depth)} != {(w, d)}")
